@@ -73,6 +73,14 @@ bool ops_image(Ctx& c, const json& s, int idx, bool& handled) {
 			tryOp("compare", [&] { BitmapFile c2 = b; if (!(c2 == b)) throw std::logic_error("copy differs"); }); };
 		if (kind == "bmp" || kind == "tileset") { BitmapFile b; Stream::MemoryReader r(img.data(), img.size()); at("load");
 			try { b = kind == "bmp" ? BitmapFile::ReadIndexed(r) : Tileset::ReadTileset(r); } catch (const std::exception&) { err = true; }
+			if (!err && kind == "bmp") { at("postcondition");      // C08: whatever the reader accepts is a valid bitmap (checked before any follow-up operation touches it)
+				const long long w = b.imageHeader.width, h = b.imageHeader.height, bc = b.imageHeader.bitCount; std::string why;
+				if (w < 0) why = "negative width " + std::to_string(w);
+				else if (bc != 1 && bc != 4 && bc != 8) why = "bit depth " + std::to_string(bc);
+				else if (b.palette.size() > (std::size_t(1) << bc)) why = "palette of " + std::to_string(b.palette.size()) + " entries";
+				else if ((unsigned long long)b.pixels.size() != (unsigned long long)(((w * bc + 31) / 32) * 4) * (unsigned long long)(h < 0 ? -h : h)) why = "pixel bytes " + std::to_string(b.pixels.size()) + " for " + std::to_string(w) + " x " + std::to_string(h) + " at depth " + std::to_string(bc);
+				else if (throws([&] { b.Validate(); })) why = "Validate() refuses what ReadIndexed returned";
+				if (!why.empty()) Proto::mismatch(fsite + "/postcondition", "accepted-invalid-bitmap", where(why)); }
 			if (!err) { useBitmap(b);
 				if (kind == "tileset" && fault != "none") { at("load");         // a loaded tileset satisfies the tileset constraints
 					if (b.imageHeader.bitCount != 8 || b.imageHeader.width != 32 || b.imageHeader.height % 32 != 0) { Proto::mismatch(fsite, "constraint-violating-tileset-loaded", where("")); return false; } } } }
